@@ -9,6 +9,9 @@ def specs(mode="construct"):
     out.append(("props.ibantasks", "IbanTask", ("None", mode)))
     if mode == "construct":
         out += [("props.ibantasks", "IbanTask", (cc, "from-object")) for cc in ("DE", "GB", "NO", "None")]
+        # the alternate constructor validates like IBAN(...): from_bban over every text of the right / wrong length
+        from props import c02
+        out += c02.from_bban_flag_specs(["DE", "GB", "NO", "FR", "MT", "BE"])
     out += [("props.shared", "NumerifyTask", (n,)) for n in shared.numerify_lengths()]
     return out
 
